@@ -19,6 +19,7 @@ import (
 	"verif/driver"
 	"verif/refcodec"
 	"verif/schema"
+	"verif/vlib"
 )
 
 //go:linkname setMapIter runtime.verifSetMapIter
@@ -177,7 +178,8 @@ func caseInfo(b *driver.Bound, rv *refcodec.RecValue) map[string]any {
 	schema.RenderRecord(&sb, b.Case.Rec, "")
 	m := map[string]any{"case": b.Case.ID, "class": b.Case.Class, "options": driver.OptName(b.Opt), "opt": b.Opt, "record": sb.String()}
 	if rv != nil {
-		m["value"] = refcodec.NormalRec(rv)
+		// replays re-enumerate the case (case id + option set); the value is there for the reader, so long ones are cut
+		m["value"] = vlib.Short(refcodec.NormalRec(rv), 4096)
 	}
 	return m
 }
@@ -219,6 +221,7 @@ func Main(pkgs []Pkg) {
 	sup := schema.NewSupport()
 	cases := sup.Cases(w.thorough)
 	cases = append(cases, EvoCases(sup)...)
+	cases = append(cases, schema.ImportCases().Cases...)
 	byID := map[string]*schema.Case{}
 	for _, c := range cases {
 		byID[c.ID] = c
